@@ -1347,7 +1347,7 @@ func ruleBChain(c *engine.Context) *report.Rule {
 		}
 		for _, l := range cfgutil.Loops(fn) {
 			ind := cfgutil.Classify(l)
-			if ind.Kind != cfgutil.LoopAscending {
+			if ind.Kind != cfgutil.LoopAscending && ind.Kind != cfgutil.LoopAscendingFrom {
 				continue
 			}
 			// loop-carried node phis used as receiver of the link method
